@@ -36,11 +36,15 @@ def kept_line_locals(P, fn):
             if st["k"] == "assign" and not st["place"]["proj"] and b["locals"][st["place"]["local"]].get("name"):
                 asg.setdefault(st["place"]["local"], []).append(st["rv"])
 
-    def is_line_number(op):
+    def is_line_number(op, depth=0):
         r = ch.root(op, through_calls=False)
         if r[0] is None:
             return False
         d = ch.single_def(r[0])
+        # a component of a tuple built a moment ago: `let (line_num, line) = (n + 1, text)`
+        if d and d[0] == "stmt" and d[2]["k"] == "agg" and d[2]["kind"].get("k") == "tuple" and r[1] and r[1][0].get("k") == "field" and len(r[1]) == 1 and depth < 4:
+            i = r[1][0]["i"]
+            return i < len(d[2]["ops"]) and is_line_number(d[2]["ops"][i], depth + 1)
         # (checked in a debug build, plain in a release build)
         return bool(d and d[0] == "stmt" and d[2]["k"] == "bin" and d[2]["op"] in ("AddWithOverflow", "Add") and "const" in d[2]["r"] and d[2]["r"]["const"].get("int") == "1")
 
